@@ -6,6 +6,7 @@
 set -u
 PATCH=$(realpath "$1"); ID=$2; TIER=${3:-quick}
 SW=/tmp/seedrepo.slot
+git -C /repo worktree remove --force "$SW" >/dev/null 2>&1; rm -rf "$SW"
 git -C /repo worktree add --detach "$SW" HEAD >/dev/null 2>&1 || { echo "cannot create worktree"; exit 2; }
 trap 'git -C /repo worktree remove --force "$SW" >/dev/null 2>&1; rm -rf "/verif/.work/seed.$$"' EXIT
 cd "$SW" || exit 2
@@ -17,7 +18,6 @@ cd /verif && VERIF_REPO="$SW" VERIF_WORK_SUFFIX=".seed$$" VERIF_EVIDENCE_DIR="/v
 rc=$?
 grep -E '^(VIOLATION|INCONCLUSIVE|SUMMARY|KNOWN)' "/verif/.work/seed.$$/out" | head -6
 grep -A1 '^VIOLATION' "/verif/.work/seed.$$/out" | grep oracle | head -4
-rm -f /verif/.work/bin/kvcheck*seedrepo.$$ 2>/dev/null
-rm -rf "/verif/.work/$ID-$TIER.seed$$" "/verif/.work/C19-$TIER.seed$$.race" /verif/.work/mod/*seedrepo.$$* 2>/dev/null
+rm -rf "/verif/.work/$ID-$TIER.seed$$" "/verif/.work/C19-$TIER.seed$$.race" 2>/dev/null
 echo "SEEDTEST $ID $(basename $(dirname $PATCH))/$(basename $PATCH) exit=$rc"
 exit 0
